@@ -223,6 +223,17 @@ class Rig:
         had_us = hasattr(builtins, "_")
         old_us = getattr(builtins, "_", None)
         escaped = exc = escaped_at = None
+        # did the implementation COMPILE during this run?  (tells a recompile from a mere rewrite of the
+        # loaded entry; by effect, through a counting wrapper on the module global)
+        ncomp = [0]
+        orig_compile = getattr(self.cc, "compile_code", None)
+        if orig_compile is not None:
+
+            def counting_compile(*a, **k):
+                ncomp[0] += 1
+                return orig_compile(*a, **k)
+
+            self.cc.compile_code = counting_compile
         try:
             with contextlib.redirect_stdout(out), contextlib.redirect_stderr(err):
                 if kind == "script":
@@ -243,6 +254,8 @@ class Rig:
             elif r[0] is not None:
                 exc = f"{r[0].__name__}: {r[1]}"[:120]
         finally:
+            if orig_compile is not None:
+                self.cc.compile_code = orig_compile
             ex.scriptcache, ex.cacheall = True, False
             ex.filename = ex._default_filename
             if had_us:
@@ -259,6 +272,7 @@ class Rig:
         res = {"stdout": out.getvalue(), "calls": [list(c) for c in self.calls], "exc": exc, "escaped": escaped, "ns": dict(sorted(keys.items()))}
         if escaped_at:
             res["escaped_at"] = escaped_at  # informational, not part of same_outcome()
+        res["compiled"] = ncomp[0] if orig_compile is not None else None  # informational as well
         return res
 
     def run_real(self, kind, text, sw, ns, mode, script=None):
